@@ -22,7 +22,7 @@ def base_consts():
         "TokAuds": {"absent"}, "TokIsss": {"absent"}, "Kids": {"known"},
         "XHdrs": {"absent"}, "AuthzHdrs": {"good"}, "Schemes": {"Bearer"},
         "TenantTables": {fs()}, "TenantHdrs": {""}, "SignedFor": {"default"},
-        "ClaimSets": {fs()}, "HostLabels": {"e"}, "EpHeaders": {""},
+        "ClaimSets": {fs()}, "HostLabels": {"e"}, "EpHeaders": {""}, "PathEps": {""},
     }
 
 
@@ -64,7 +64,7 @@ def c09(chk):
     c = base_consts()
     keysets = {fs("HS"), fs("RS"), fs("ES"), fs("HS", "RS"), fs("HS", "RS", "ES"), fs("JWKS")}
     c.update({"KeySets": keysets, "Auds": {"", "A"}, "Isss": {"", "I"}, "Algs": ALL4,
-              "Signers": {"conf", "other", "confusion", "unsigned"}, "Kids": {"known", "unknown", "absent"},
+              "Signers": {"conf", "other", "confusion", "unsigned", "empty"}, "Kids": {"known", "unknown", "absent"},
               "XHdrs": {"absent", "good", "bad"}, "AuthzHdrs": {"absent", "good", "bad"},
               "Schemes": {"Bearer", "bearer", "Basic", "none"}})
     if quick:
@@ -97,6 +97,7 @@ def c10(chk):
     c = base_consts()
     c.update({"ClaimSets": {fs(), fs("e"), fs("e1"), fs("e", "e1"), fs("other")},
               "HostLabels": {"", "e", "e1", "other"}, "EpHeaders": {"", "e", "e1", "other"},
+              "PathEps": {"", "e", "other"},
               "TenantTables": {fs(), fs("t1"), fs("t1", "t2")}, "TenantHdrs": {"", "t1", "t2", "tx"},
               "SignedFor": {"default", "t1", "t2"}})
     model(chk, "C10-table", c, C10_INV)
